@@ -579,6 +579,9 @@ func c10GenRecs(rng *hx.Rng, ntopics, nparts, n int, discards bool) []c10Rec {
 
 func genC10(w *bufio.Writer, rng *hx.Rng, tier string) {
 	thorough := tier == "thorough"
+	// hx.NewRng(seed+1) is hx.NewRng(seed) advanced by one draw (state = seed*step + c, step added per
+	// draw): re-seed from a mixed output so that different seeds give unrelated streams
+	rng = hx.NewRng(rng.U64())
 	// ---- packing: boundary grid, then random
 	idxB := []int64{0, 1, 2, 65535, 65536, 1<<31 - 1, 1 << 31, 1<<47 - 1, 1 << 47, 1<<48 - 1}
 	partB := []int32{0, 1, 255, 256, 32767, 32768, 65534, 65535}
@@ -609,9 +612,9 @@ func genC10(w *bufio.Writer, rng *hx.Rng, tier string) {
 			}
 		}
 	}
-	npack := 6000
+	npack := 20000
 	if thorough {
-		npack = 250000
+		npack = 300000
 	}
 	bits := func(max int) int64 { // random value with a random bit length up to max
 		n := rng.Range(0, max)
@@ -666,9 +669,9 @@ func genC10(w *bufio.Writer, rng *hx.Rng, tier string) {
 		}
 		perm(nil, 0)
 	}
-	nmarks := 1500
+	nmarks := 4000
 	if thorough {
-		nmarks = 40000
+		nmarks = 60000
 	}
 	for i := 0; i < nmarks; i++ {
 		ntopics := rng.Range(1, 4)
@@ -716,9 +719,9 @@ func genC10(w *bufio.Writer, rng *hx.Rng, tier string) {
 	}
 
 	// ---- the real pipeline in spread mode
-	npipe := 260
+	npipe := 700
 	if thorough {
-		npipe = 6000
+		npipe = 9000
 	}
 	for i := 0; i < npipe; i++ {
 		procs := []int{1, 2, 2, 4}[rng.Intn(4)]
